@@ -89,6 +89,32 @@ def generate(tier, rng):
     for bi in range(0, len(items), BATCH):
         chunk = items[bi:bi + BATCH]
         cases.append(Case("c17-%d" % (bi // BATCH), [l for l, _ in chunk], {"expect": [e for _, e in chunk]}))
+    # protected routes in the router: the handler of a protected method runs only when its authenticator accepts the
+    # request, otherwise 401 with that authenticator's challenge — whatever else is registered for the same path, in
+    # whatever order (public method first, protected first, several protected methods with different authenticators)
+    from props import c16
+    methods = [b"GET", b"PUT", b"DELETE", b"POST"]
+    tables = []
+    for path in (b"/item", b"/item/:id", b"/a/:x/b"):
+        for k in range(1, 5):
+            for _ in range(3 if tier == "quick" else 30):
+                ms = []
+                for j in range(k):
+                    ms.append((methods[j], j + 1, rng.choice([-1, 0, 0, 1])))
+                rng.shuffle(ms)
+                tables.append([(path, ms)])
+        tables.append([(path, [(b"GET", 1, -1), (b"PUT", 2, 0), (b"DELETE", 3, 0)]), (b"/other", [(b"GET", 4, 1)])])
+        tables.append([(b"/other", [(b"GET", 4, 1)]), (path, [(b"PUT", 2, 0), (b"GET", 1, -1)])])
+    for ti, routes in enumerate(tables):
+        lines = c16.table_lines(routes)
+        exp = [None] * len(lines)
+        for (pat, ms) in routes:
+            tgt = b"/".join((b"v" if seg.startswith(b":") else seg) for seg in pat.split(b"/"))
+            for m in methods:
+                for mask in range(4):
+                    lines.append("rt-req %s %s %d" % (hx(m), hx(tgt), mask))
+                    exp.append(c16.expected_line(routes, m, tgt, mask))
+        cases.append(Case("c17-rt-%d" % ti, lines, {"expect": exp}))
     return cases
 
 
@@ -107,7 +133,7 @@ def oracle(case, out):
                 return "base64 round trip fails for a %d byte string %s: decode(encode(x)) = %s" % (len(x), hx(x)[:80], hx(dec)[:80])
         elif e is not None and e != o:
             return "operation %r: decision %r, expected %r" % (case.lines[i], o, e)
-        elif e is None and case.lines[i].startswith("auth") and not o.startswith("chal="):
+        elif e is None and case.lines[i].startswith("auth ") and not o.startswith("chal="):
             return "operation %r: unexpected output %r" % (case.lines[i], o)
     return None
 
